@@ -29,7 +29,9 @@ VBool == [k |-> "bool"]
 VStr(s) == [k |-> "str", s |-> s]
 VGlob(n) == [k |-> "glob", n |-> n]
 VRaw(t) == [k |-> "raw", t |-> t]
-VInst(n) == [k |-> "inst", n |-> n]
+(* an instance of the declared type n; tg names the target namespace ("__" ++ tg) whose declaration of n is meant, "" = any *)
+VInst(n) == [k |-> "inst", n |-> n, tg |-> ""]
+VInstT(n, tg) == [k |-> "inst", n |-> n, tg |-> tg]
 VParam(n) == [k |-> "param", n |-> n]
 VList(vs) == [k |-> "list", vs |-> vs]
 VRec(f) == [k |-> "rec", f |-> f]
@@ -182,7 +184,11 @@ MemberX(v, t, env, sc, fuel, ex) ==
               CASE r.k = "param" -> v.k = "param" /\ v.n = r.n
                 [] r.k = "global" -> v.k = "glob" /\ v.n = r.n
                 [] r.k = "missing" -> TRUE                    \* an unresolved member is an error type (any); reported separately (Dangling)
-                [] r.k = "decl" -> IF v.k = "inst" /\ IsDeclOfType(env, r, v.n) THEN TRUE
+                [] r.k = "decl" -> IF v.k = "inst" /\ IsDeclOfType(env, r, v.n) /\ (v.tg = "" \/ (r.file # "schema" /\ v.tg = "ResolverOutput"))   \* (local aliases of the resolvers file stand for parent / result objects)
+                                   THEN TRUE
+                                   ELSE IF v.k = "inst" /\ IsDeclOfType(env, r, v.n) /\ r.ns # ""
+                                   THEN r.ns = "__" \o v.tg           \* the declaration of n inside a target namespace: that target's instances only
+                                                                      \* (a module-level representative is an alias and is followed below)
                                    ELSE MemberX(v, r.stmt.t, env, ScopeOfDecl(r), fuel - 1, ex)
     [] OTHER -> FALSE
 Member(v, t, env, sc, fuel) == MemberX(v, t, env, sc, fuel, "no")
